@@ -5,10 +5,11 @@
 package c17
 
 import (
+	"crypto/sha256"
+	"encoding/hex"
 	"fmt"
 	"sort"
 	"strings"
-	"sync"
 
 	v1 "k8s.io/api/core/v1"
 
@@ -98,9 +99,9 @@ func histConfigs(tier string) []Config {
 	cs := []Config{
 		{Name: "two-single-fraction-one-group", Node: "node-1", Workloads: []br.Workload{frac("a", "0.5", "g1"), frac("b", "0.3", "g1")}},
 		{Name: "multi-fraction-plus-single-two-groups", Node: "node-1", Workloads: []br.Workload{multi("m", "g1", "g2"), frac("s", "0.3", "g1")}},
-		{Name: "two-single-fraction-two-groups", Node: "node-1", Workloads: []br.Workload{frac("a", "0.5", "g1"), frac("b", "0.3", "g2")}},
 	}
 	if tier == "thorough" {
+		cs = append(cs, Config{Name: "two-single-fraction-two-groups", Node: "node-1", Workloads: []br.Workload{frac("a", "0.5", "g1"), frac("b", "0.3", "g2")}})
 		cs = append(cs, Config{Name: "two-multi-fraction-shared-groups", Node: "node-1", Workloads: []br.Workload{multi("m", "g1", "g2"), multi("n", "g2", "g1")}})
 	}
 	return cs
@@ -245,6 +246,9 @@ func expand(cfg *Config, s *hstate, tier string) ([]transition, error) {
 				c := &info.Calls[k]
 				inWin := created && !labelled
 				for _, kind := range br.Deviations(c, false) {
+					if kind == br.Crash && tier != "thorough" && !inWin {
+						continue // quick: crash points between reservation-pod creation and consumer labelling only
+					}
 					fl := Label{Op: "bindfault", Pod: name, K: k, Kind: kind, Call: c.Verb + " " + c.Target}
 					_, fw, err := do(fl)
 					if err != nil {
@@ -327,98 +331,65 @@ type HistFinding struct {
 	History []Label `json:"history"`
 }
 
-type histStats struct {
-	States, Transitions, MaxDepth, WindowCrashes int
-	ByOp                                         map[string]int
-	Findings                                     []HistFinding
-	Sample                                       []string
-	CapHit                                       bool
-	Err                                          error
+// frontierEntry is one state of the current BFS level, identified by its (shortest) history; the
+// search is stateless across processes: a worker re-executes the history to obtain the state.
+type frontierEntry struct {
+	Cfg  int     `json:"cfg"`
+	Hist []Label `json:"hist"`
 }
 
-// searchHistories is a level-synchronous BFS; the states of one level are expanded by a goroutine
-// pool, results are merged in a fixed order so the outcome does not depend on scheduling.
-func searchHistories(cfg *Config, tier string, depth, par int, stop func() bool) histStats {
-	st := histStats{ByOp: map[string]int{}}
-	sc := cfg.scenario()
-	w0, _, err := sc.Build(0, false)
+// expTrans / expResult: what a worker reports for one expanded frontier entry.
+type expTrans struct {
+	L     Label        `json:"l"`
+	H     string       `json:"h"` // hash of the canonical successor store
+	Fresh []br.Finding `json:"fresh,omitempty"`
+	Win   bool         `json:"win,omitempty"`
+	Canon string       `json:"canon,omitempty"` // only for the first few (samples)
+}
+
+type expResult struct {
+	Entry   int        `json:"entry"`
+	Trans   []expTrans `json:"trans"`
+	Err     string     `json:"err,omitempty"`
+	Skipped bool       `json:"skipped,omitempty"` // level budget exhausted before this entry
+}
+
+// expandEntry rebuilds the state of a frontier entry by re-executing its history on the real code
+// and returns all its outgoing transitions.
+func expandEntry(cfgs []Config, idx int, e frontierEntry, tier string) expResult {
+	r := expResult{Entry: idx}
+	cfg := &cfgs[e.Cfg]
+	w, _, err := cfg.scenario().Build(0, false)
 	if err != nil {
-		st.Err = err
-		return st
+		r.Err = err.Error()
+		return r
 	}
-	s0 := &hstate{w: w0}
-	sn := w0.Snap()
-	s0.canon, s0.findings = sn.Canon(), findingSet(sn)
-	visited := map[string]bool{s0.canon: true}
-	level := []*hstate{s0}
-	st.States = 1
-	seenKey := map[string]bool{}
-	for d := 0; d < depth && len(level) > 0; d++ {
-		if stop() {
-			st.CapHit = true
-			break
+	for _, l := range e.Hist {
+		if _, err := Apply(w, cfg, l); err != nil {
+			r.Err = err.Error()
+			return r
 		}
-		results := make([][]transition, len(level))
-		errs := make([]error, len(level))
-		var wg sync.WaitGroup
-		sem := make(chan struct{}, par)
-		for i := range level {
-			wg.Add(1)
-			sem <- struct{}{}
-			go func(i int) {
-				defer wg.Done()
-				defer func() { <-sem }()
-				if stop() {
-					return
-				}
-				results[i], errs[i] = expand(cfg, level[i], tier)
-			}(i)
-		}
-		wg.Wait()
-		var next []*hstate
-		for i := range level {
-			if errs[i] != nil {
-				st.Err = errs[i]
-				return st
-			}
-			if results[i] == nil && stop() {
-				st.CapHit = true
-			}
-			for _, tr := range results[i] {
-				st.Transitions++
-				st.ByOp[tr.label.after()]++
-				if tr.inWindow {
-					st.WindowCrashes++
-				}
-				for _, f := range tr.fresh {
-					key := fmt.Sprintf("C17/%s after=%s", f.Key, tr.label.after())
-					if seenKey[key] {
-						continue
-					}
-					seenKey[key] = true
-					st.Findings = append(st.Findings, HistFinding{Key: key, Msg: f.Msg, Config: cfg.Name, History: tr.to.hist})
-				}
-				if !visited[tr.to.canon] {
-					visited[tr.to.canon] = true
-					st.States++
-					next = append(next, tr.to)
-					if st.MaxDepth < d+1 {
-						st.MaxDepth = d + 1
-					}
-					if len(st.Sample) == 0 && d+1 >= 3 && tr.label.Op == "bindfault" {
-						for _, l := range tr.to.hist {
-							st.Sample = append(st.Sample, l.String())
-						}
-						st.Sample = append(st.Sample, "=> "+strings.ReplaceAll(strings.TrimSpace(tr.to.canon), "\n", " ; "))
-					}
-				}
-				tr.to.hist = append([]Label{}, tr.to.hist...)
-			}
-			level[i].w = nil // free
-		}
-		level = next
 	}
-	return st
+	sn := w.Snap()
+	s := &hstate{w: w, canon: sn.Canon(), findings: findingSet(sn), hist: e.Hist}
+	trs, err := expand(cfg, s, tier)
+	if err != nil {
+		r.Err = err.Error()
+		return r
+	}
+	for _, t := range trs {
+		et := expTrans{L: t.label, H: hashCanon(e.Cfg, t.to.canon), Fresh: t.fresh, Win: t.inWindow}
+		if idx < 2 && len(e.Hist) >= 2 && t.label.Op == "bindfault" && len(r.Trans) < 40 {
+			et.Canon = t.to.canon
+		}
+		r.Trans = append(r.Trans, et)
+	}
+	return r
+}
+
+func hashCanon(cfg int, canon string) string {
+	h := sha256.Sum256([]byte(fmt.Sprintf("%d|%s", cfg, canon)))
+	return hex.EncodeToString(h[:10])
 }
 
 // ReplayHistory re-executes a history and returns the fresh findings of its last event.
